@@ -131,6 +131,33 @@ theorem QSpec.bind_plain {α β : Type} {G : β → Prop} {x : M α} {f : α →
       rw [flagAfter_append, (plain_quiet hp.2).2]; exact h2.2.1
     · exact h2.2.2
 
+/-- `try: x except Exception as ex: h ex` with a plain `x` -/
+theorem QSpec.tryCatch_plain {α : Type} {G : α → Prop} {x : M α} {h : Exc → M α} (hx : M.Rel RPlain x)
+    (hh : ∀ ex c1, isDisc c1.state = false → QSpec G (h ex c1)) (c : Conn)
+    (hc : isDisc c.state = false) : QSpec G (M.tryCatch x h c) := by
+  have hp := hx.out c
+  have hup := plain_track_up hp.2 hc
+  rw [← hp.1] at hup
+  rcases hxc : x c with ⟨r, c1, e1⟩
+  rw [hxc] at hp hup
+  cases r with
+  | ok a =>
+    rw [M.tryCatch_ok hxc]
+    refine ⟨(plain_quiet hp.2).1, ?_, ?_⟩
+    · show isDisc c1.state = flagAfter false e1
+      rw [(plain_quiet hp.2).2]; exact hup
+    · intro b _ hd
+      have hd' : isDisc c1.state = true := hd
+      rw [hup] at hd'; cases hd'
+  | error ex =>
+    rw [M.tryCatch_err hxc]
+    have h2 := hh ex c1 hup
+    refine ⟨?_, ?_, h2.2.2⟩
+    · show quiet false (e1 ++ (h ex c1).eff) = true
+      rw [quiet_append, (plain_quiet hp.2).1, (plain_quiet hp.2).2, h2.1]; rfl
+    · show isDisc (h ex c1).conn.state = flagAfter false (e1 ++ (h ex c1).eff)
+      rw [flagAfter_append, (plain_quiet hp.2).2]; exact h2.2.1
+
 /-- sequencing after a step that may disconnect: the continuation must be calm from a disconnected
 state for every result `a` that the first step can return there (`G a`) -/
 theorem QSpec.bind {α β : Type} {G : α → Prop} {H : β → Prop} {x : M α} {f : α → M β} (c : Conn)
